@@ -858,7 +858,7 @@ impl Harness for C19 {
                 "dense_matrix": format!("every shape 0..={r} x 0..={r}, 5 value patterns (4 index-coded sign patterns + non-dyadic), built directly and by transpose(), f64 and f32, 9 serial forms (bincode, JSON, JSON sequence form, JSON map form with its 3 fields in all 6 orders)", r = rmax),
                 "subjects": format!("{} type configurations (each at f64 and f32 counted separately)", names.len()),
                 "round_trips": format!("every subject x {} catalogue data sets (6x1, 9x2, 8x2, 10x3, 12x4, 8x5) x value variants ({} for real-valued, 3 for count data; VERIF_SEED selects one of 8 lattice offsets) x {{bincode, JSON}}; queries: the half-step / integer lattice of the data set's dimension plus the training rows", n_cat, if th { "3, and 5 incl. the scales 2^-30 and 2^30 for types that are not fitted by an iterative optimiser" } else { "3" }),
-                "inequality": format!("every subject with == x every catalogue data set x {} variant(s) x every unordered pair of its {} twins (identity, shifted rows + renamed targets, appended row + changed targets, reversed order, mirrored column + swapped classes)", if th { 3 } else { 1 }, data::N_TWINS),
+                "inequality": format!("every subject with == x every catalogue data set x {} variant(s) x every unordered pair of its {} twins (identity, shifted rows + renamed targets, appended row + changed targets, reversed order, mirrored column + swapped classes, reversed order + only the largest class name / target replaced)", if th { 3 } else { 1 }, data::N_TWINS),
                 "micro": micro_families(th).iter().map(|f| format!("every {}x{} matrix over {{0..{}}} ({}) x every binary labelling using both classes ({}){}", f.n, f.p, f.sigma - 1, f.n_x(), f.n_y(), if f.n_x() > 1000 { " x plain values, f64 only" } else if th || f.n_x() <= 27 { " x {plain, non-dyadic} values" } else { " x plain values" })).collect::<Vec<_>>(),
                 "edge_family": format!("Extension (round 2): {} configurations (f64 and f32 counted separately) whose fitted state holds legitimate boundary values x their edge data sets (tags {:?}: catalogue shapes {}; two distinct rows, p = {}; constant targets 0 / 3 / a single class on the catalogue shapes; collinear rank-one rows) x the value variants x {{bincode, JSON}}, full round-trip oracle: SVR with eps = 0.5 x range and 0.75 x range + 0.1 (every kernel; no support vectors), SVC / SVR on two rows (one support-vector pair), Gaussian / multinomial / Bernoulli NB with priors {{[0,1], [1,0], [1e-300,1-1e-300], [5e-324,1]}} / {{[.5,0,.5], [0,0,1], [1e-300,.5,.5], [.5,.5,5e-324]}}, multinomial / Bernoulli / categorical NB with alpha = 0, k-NN with k = n, DBSCAN all-noise / single-cluster (5 distances x 2 search structures), trees with max_depth 0 / min_samples_split 1000 / constant target, forests of one tree, PCA / truncated SVD with one component on two rows and on rank-one data, linear / ridge / lasso / elastic-net on constant targets, ridge alpha = 1e30, lasso / elastic-net alpha = 1e4", edge_names.iter().filter(|e| e.3 > 0).count(), data::EDGE_TAGS, "n6p1, n9p2, n8p2, n10p3, n12p4, n8p5", if th { "1, 2, 3, 5" } else { "1, 2, 3" }),
                 "random_estimators": format!("SVC visiting order and k-means++ seeding answered through the verif-hooks seam: default answers and, in the catalogue round trips, every schedule with at most {} deviation(s) from them; forests: the library's seeded generator with 5 fixed seeds", if th { 2 } else { 1 }),
